@@ -569,14 +569,19 @@ GMetaSub ==
 DeafIds == LET deaf == {v \in Joined(Cur) : sess[v].stalled}
                full == {v \in deaf : ~Room(Cur, v)}
            IN {sess[v].id : v \in IF full # {} THEN full ELSE deaf}
-GKill ==
-  \E s \in J : \E which \in (IF Scripted /\ DeafIds # {} THEN {1} ELSE W(<<1, 1, 2, 3, 4, 4>>)) :
+GKillOf(ws) ==
+  \E s \in J : \E which \in (IF Scripted /\ DeafIds # {} THEN {1} ELSE W(ws)) :
   \E id \in R(IF Scripted /\ DeafIds # {} THEN DeafIds ELSE SidArgs), reason \in W(<<<<>>, <<>>, <<>>, <<>>, U_kicked, U_badreason, U_shutdown>>),
      role \in R(Roles), aid \in R(Authids) :
     CASE which = 1 -> MetaStep(s, [In0 EXCEPT !.uri = U_session_kill, !.id = id, !.uri2 = reason])
       [] which = 2 -> MetaStep(s, [In0 EXCEPT !.uri = U_session_kill_by_authid, !.args = <<aid>>, !.uri2 = reason])
       [] which = 3 -> MetaStep(s, [In0 EXCEPT !.uri = U_session_kill_by_authrole, !.args = <<role>>, !.uri2 = reason])
       [] OTHER     -> MetaStep(s, [In0 EXCEPT !.uri = U_session_kill_all, !.uri2 = reason])
+
+GKill == GKillOf(<<1, 1, 2, 3, 4, 4>>)
+\* (kind "kill1": never wamp.session.kill_all - for checks whose property has nothing to say about the
+\* known finding at that call site)
+GKill1 == GKillOf(<<1, 1, 2, 3>>)
 
 \* topics somebody else would receive
 Covered(s) == {u \in Targets : \E k \in DOMAIN subs : MatchKey(k, u) /\ subs[k].members \ {s} # {}}
@@ -683,6 +688,7 @@ GenNext ==
        [] kind = "mreg"   -> GMetaReg
        [] kind = "msub"   -> GMetaSub
        [] kind = "kill"   -> GKill
+       [] kind = "kill1"  -> GKill1
        [] kind = "tst"    -> GTestament
        [] kind = "hist"   -> GGetEvents
        [] kind = "hello"  -> GHello
